@@ -149,11 +149,29 @@ func (rb *ResponseBuffer) Header() http.Header {
 	return rb.header
 }
 
+// IsInformational reports whether status belongs to a response that
+// precedes the final one (1xx other than 101 Switching Protocols, for
+// example 103 Early Hints). A handler may send any number of those
+// before its real status; they do not commit the response header.
+func IsInformational(status int) bool {
+	return status >= 100 && status < 200 && status != http.StatusSwitchingProtocols
+}
+
 // WriteHeader calls shouldBuffer to decide whether the
 // upcoming body should be buffered, and then writes
 // the header to the response.
 func (rb *ResponseBuffer) WriteHeader(status int) {
 	if rb.wroteHeader {
+		return
+	}
+	if IsInformational(status) {
+		// send it with the header fields set so far, then take them
+		// back: the final header is still the handler's to build
+		rb.CopyHeader()
+		rb.ResponseWriterWrapper.WriteHeader(status)
+		for field := range rb.header {
+			rb.ResponseWriterWrapper.Header().Del(field)
+		}
 		return
 	}
 	rb.wroteHeader = true
